@@ -439,7 +439,8 @@ class C15(PropBase):
         ts = model_tscfg(case.get("cfg", {}))
         if ts is None:
             return None
-        if self.crash_class(case):
+        k = case.get("kind", "")
+        if k.startswith("acct-depth:") and k.split(":")[1].isdigit() and int(k.split(":")[1]) >= 5000:
             return None     # depth >= 5000: the model's account tree (lists of paths) is cubic; implementation and oracle only
         c = {k: v for k, v in case.items() if k not in ("kind",)}
         c["cfg"] = model_cfg(case.get("cfg", {}))
